@@ -103,7 +103,8 @@ def dtStrp (s : List Char) (len : Nat) : Option (Inst × Nat) :=
   let sp := if chr s sp = '-' then sp + 1 else sp
   let c := chr s sp
   let sp := sp + 1
-  if ¬ ((c = '0' ∨ c = '1') ∧ x0 (chr s sp) < 10) then none else
+  -- no month beyond the twelfth
+  if ¬ ((c = '0' ∧ x0 (chr s sp) < 10) ∨ (c = '1' ∧ x0 (chr s sp) < 3)) then none else
   let r := { r with m := (if c = '1' then 10 else 0) + x0 (chr s sp) }
   let sp := sp + 1
   let sp := if chr s sp = '-' then sp + 1 else sp
@@ -114,6 +115,8 @@ def dtStrp (s : List Char) (len : Nat) : Option (Inst × Nat) :=
   let tens := 10 * x0 c
   if sp ≥ ep then none else
   if ¬ (x0 (chr s sp) < 10) then none else
+  -- nor a day beyond the thirty-first
+  if tens + x0 (chr s sp) > 31 then none else
   let r := { r with d := tens + x0 (chr s sp) }
   let sp := sp + 1
   if sp ≥ ep ∨ (chr s sp ≠ 'T' ∧ chr s sp ≠ ' ') then fin s { r with H := allDay } sp
